@@ -327,7 +327,26 @@ def r16_9(ctx: Ctx, rule: str = "R16.9") -> None:
               "writestr/writef store a name that is absolute where drives exist", construct="check_archive_path drive prefix")
 
 
+def r16_10(ctx: Ctx) -> None:
+    """sibling gates agree on climbing names: what write()/writeall() store (the value _sanitize_archive_arcname returns) has passed the
+    gate writestr()/writef() use - every accepting return of the sanitiser stands under a true outcome of check_archive_path (or the false
+    outcome raises).  Otherwise `write('../data/tree')` stores '../data/tree', which writestr refuses and no reader extracts."""
+    f = shared.szf(ctx, "_sanitize_archive_arcname")
+    rets = [r for r in walk(f.node) if isinstance(r, ast.Return) and r.value is not None]
+    ctx.floor("R16.10", len(rets), 1, "accepting returns of the arcname sanitiser")
+    for r in rets:
+        ok = False
+        for cd, pol in q.facts_at(f, r):
+            if isinstance(cd, ast.Call) and attr_tail(cd) == "check_archive_path" and pol:
+                ok = True
+        ctx.check(ok, "R16.10", f, r, "a name write() stores has passed check_archive_path (the gate of writestr/writef)",
+                  "_sanitize_archive_arcname returns a name that check_archive_path was never asked about: '..' components survive (`write('../data/tree')`, CLI `c arc ../data/tree`), "
+                  "the archive lists '../data/tree/...', writestr() refuses the same name and extraction of the whole archive fails with 'Specified path is bad'",
+                  construct="sanitiser returns unchecked name")
+
+
 def run(ctx: Ctx) -> None:
+    r16_10(ctx)
     r16_9(ctx)
     r16_8(ctx)
     r16_7(ctx)
